@@ -95,6 +95,9 @@ def value_pools(rng, tier):
             H(), H(), H((N(1), N(2)), (N(3), N(4))), H((N(3), N(4)), (N(1), N(2))), H((S("a"), N(1))), H((S("A"), N(1))),
             H((A(N(0)), N(1))), H((N(1), A(N(2)))), H((N(1), A(N(2)))),
             H((N(1), N(2)), (N(3), N(4)), (N(5), N(6)), (N(7), N(8))), H((N(7), N(8)), (N(5), N(6)), (N(3), N(4)), (N(1), N(2)))]
+    # neighbouring single-precision numbers (one unit in the last place apart) are different numbers
+    near = [N(8388608), N(8388609), N(8388610), N(16777216), N(16777218), N(16777220), N(-16777216), N(-16777218)]
+    base += near + [A(near[0]), A(near[1]), A(N(1), near[3]), A(N(1), near[4]), H((near[0], N(1))), H((near[1], N(1))), H((N(1), near[3])), H((N(1), near[4]))]
     pools = [base]
     # random pools of nested values (seeded)
     atoms = [N(0), NEG0, N(1), N(2), S("a"), S("A"), S("b"), B(True), B(False)]
@@ -166,6 +169,7 @@ def random_map_histories(rng, n, length):
     keys = [lit(N(0)), lit(N(1)), lit(S("a")), lit(S("A")), lit(B(True)), lit(A(N(0))), lit(A(N(0), N(9))), lit(A(A(N(0)))),
             lit(A(N(0), N(9), N(9))), lit(A()), {"k": "kvar"}, {"k": "kvar"},
             {"k": "lit", "v": N(0), "txt": "-0"}, {"k": "lit", "v": A(N(0)), "txt": "[-0]"}, {"k": "lit", "v": A(A(N(0))), "txt": "[[-0]]"},
+            lit(N(16777216)), lit(N(16777218)), lit(A(N(8388608))), lit(A(N(8388609))),
             lit(A(A(N(3)), N(0))), lit(A(A(N(3), N(9)), N(0))), lit(A(A(N(3), N(9), N(9)), N(0))), lit(A(A(N(3)), N(0), N(9)))]
     vals = [N(5), N(6), S("x"), A(N(1))]
     out = []
